@@ -6,6 +6,26 @@ patch undone), `screened` = tools/seed_screen.py (a copy of the committed /verif
 import glob, json, os, shutil, sys
 
 OUT = "/verif/seeded"
+# what happened before the result recorded below (the earlier screening results were overwritten by the later ones)
+HISTORY = {
+    "C14-m3": "missed on its first screening (no scenario rebound a built-in name); detected after module_builtin_scenarios was added",
+    "C10-m3": "missed on its first screening (StackBudget.tla does not replay cases within 300 slots of the budget); detected after C10's stack-boundary layer was added",
+    "C17-m3": "missed on its first screening (every calling statement was followed by another instruction on its line); detected after the calling statements were varied",
+    "C06-r2m1": "missed twice (no closure was exercised across a yield of its declaring scope; then the new family died at its first fiber call); detected after capture_across_switch_scenarios was repaired",
+    "C09-r2m2": "missed on its first screening (no fiber further up the chain than the direct caller was re-entered); detected after fiber_reentry_scenarios was added",
+    "C01-r2m2": "missed on its first screening (the dropped-suspended-fiber probe captured one variable); detected after the capture-order probes were added",
+    "C08-r2m3": "missed on its first screening (no pre-try local of the handling function was captured); detected after handler_intact_scenarios captured one",
+    "C02-r2m2": "missed by C02 on its first screening (the capture-order product was replayed by C04 / C06 only); C02 replays it now",
+    "C02-r2m3": "missed by C02 on its first screening (a C01-style defect: the class's superclass is not traced); detected after every scenario replay was run with reclaimed objects quarantined and C02 got the class product",
+    "C07-m1": "the patch was read before its screening: Machine.tla resolved `derives` on instances to the native unconditionally and no scenario overrode it; both were changed first, the change was then caught on its first screening",
+    "C04-m2": "the patch was read before its screening; the interpolation layouts were added first",
+    "C05-m2": "the patch was read before its screening; the shift-count cases were added first",
+    "C08-m3": "the patch was read before its screening; C08's caught-failure product was added first",
+    "C17-r2m1": "the description was read before its screening; Scanner.tla's line counting was added to C17 first",
+    "C17-r2m2": "the description was read before its screening; the far-line replay was added first",
+    "C17-r2m3": "the description was read before its screening; interleaved_failure_scenarios was added first (the patch was rebased onto the repair f5a2fd3)",
+    "C09-r2m3": "the description was read before its screening; StackBudget.tla's fiber-nesting rule and its replay were added first",
+}
 rows = []
 for root, tag in (("/tmp/seed", ""), ("/tmp/seed2", "r2")):
     for md in sorted(glob.glob(root + "/out/C*/m*")):
@@ -53,6 +73,8 @@ for root, tag in (("/tmp/seed", ""), ("/tmp/seed2", "r2")):
                                   "first_report": (r.get("first") or r.get("first_reports") or [""])[0][:400], "wall_s": r.get("wall", r.get("wall_s"))}
                               for c, r in results.items()},
                "detected": bool(detected_by), "detected_by": detected_by}
+        if sid in HISTORY:
+            out["history"] = HISTORY[sid]
         json.dump(out, open(os.path.join(dest, "meta.json"), "w"), indent=1)
         rows.append(out)
 print("| id | property | what the change does / what it needs | detected by |")
